@@ -718,7 +718,7 @@ pub fn check_harness<H: Harness>(h: &H, cfg: &RunCfg) -> PartResult {
                 let mv: Vec<String> = e.vars.iter().cloned().collect();
                 all_vars.extend(leaf_names_all(nodes, &roots));
                 let text = build_query(&header, &e.text, &asserts, None, &mv);
-                queries.push(Query { label: format!("{} path{} feasible", h.name(), pi), text, timeout_s: timeout.min(if cfg.tier == Tier::Quick { 10 } else { 30 }), model_vars: mv, expect_sat: None });
+                queries.push(Query { label: format!("{} path{} feasible", h.name(), pi), text, timeout_s: if fp { timeout } else { timeout.min(if cfg.tier == Tier::Quick { 10 } else { 30 }) }, model_vars: mv, expect_sat: None });
                 kinds.push(QKind::Feasible { path: pi, panic: panic.clone() });
                 n_groups += 1;
             }
